@@ -657,4 +657,3 @@ func c13AllSlices(alphabet []int, n int, f func([]int)) {
 		rec(0)
 	}
 }
-
